@@ -9,7 +9,7 @@
       templates of RenderOut.v, whose identifier tokens are audited below ([template_audit]): each is a
       keyword, a segment of an absolute `::core` path / a method or associated-item name reached through
       one, or reserved. *)
-From DX Require Import Syntax Tables Render GenBound GenAttrs IR RenderOut LemClosed.
+From DX Require Import Syntax Tables Render GenBound GenAttrs IR GenType GenCmp GenImpl GenTop RenderOut LemDump LemClosed LemClosedGen.
 
 Theorem C13_binders_reserved :
   forall prefix m, reserved prefix = true -> reserved (make_ident prefix m) = true.
@@ -89,6 +89,40 @@ Proof.
   - vm_compute. tauto.
 Qed.
 
+(** ** the pieces of a generated body are pieces of the item (LemClosedGen.v)
+
+    [fentry_ok user f]: the field's type, its name and the `key` / `by` / `default` expressions written on it consist of
+    closed or [user] tokens; [ventry_ok] adds the variant's name; [dattr_ok h]: the type-level `#[default(..)]` value.
+    For EVERY impl built from a struct / an enum the body's pieces then satisfy [body_ok]: with C13_templates_closed,
+    each token of the body is from the closed vocabulary or one the user wrote in the item.  (The pieces of the header -
+    [hdr_ok]: declared generics, the type applied to its parameters, bounds - are copied by [mk_hdr] and the where-clause
+    rules; that copying is not restated here.) *)
+Theorem C13_struct_body_pieces_come_from_the_item :
+  forall (user : tok -> Prop) s h fs e irs ir,
+    ok user (TI (s_name s)) -> ok user (TI (unraw (s_name s))) -> dattr_ok user h -> Forall (fentry_ok user) fs ->
+    build_struct_entry s h fs e = Ok irs -> In ir irs ->
+    body_ok user (ir_body ir).
+Proof. exact struct_bodies_ok. Qed.
+
+Theorem C13_enum_body_pieces_come_from_the_item :
+  forall (user : tok -> Prop) en h vs e ir,
+    ok user (TI (e_name en)) -> dattr_ok user h -> Forall (ventry_ok user) vs ->
+    enum_entry en h vs e = Ok (Ok [ir]) ->
+    body_ok user (ir_body ir).
+Proof. exact enum_bodies_ok. Qed.
+
+Theorem C13_struct_body_tokens :
+  forall (user : tok -> Prop) s h fs e irs ir,
+    ok user (TI (s_name s)) -> ok user (TI (unraw (s_name s))) -> dattr_ok user h -> Forall (fentry_ok user) fs ->
+    build_struct_entry s h fs e = Ok irs -> In ir irs -> hdr_ok user (ir_hdr ir) ->
+    TOk user (r_body (ir_hdr ir) (ir_body ir)) /\
+    match r_eq_checker (ir_hdr ir) (ir_body ir) with Some c => TOk user c | None => True end.
+Proof.
+  intros user s h fs e irs ir Hn Hu Hd Hf Hb Hin Hh.
+  pose proof (struct_bodies_ok user s h fs e irs ir Hn Hu Hd Hf Hb Hin) as B.
+  split; [now apply Ok_body | now apply Ok_eq_checker].
+Qed.
+
 Definition user_name (s : string) : bool :=      (* the sentinel names of the skeletons below *)
   str_mem s ["U"; "u"; "V"; "w"].
 
@@ -164,3 +198,6 @@ Print Assumptions C13_template_audit.
 Print Assumptions C13_templates_closed.
 Print Assumptions C13_operator_templates_closed.
 Print Assumptions C13_no_foreign_token.
+Print Assumptions C13_struct_body_pieces_come_from_the_item.
+Print Assumptions C13_enum_body_pieces_come_from_the_item.
+Print Assumptions C13_struct_body_tokens.
